@@ -349,6 +349,18 @@ func (c *Ctx) clientSource(o Origin, taintedKeys map[string]bool) string {
 			return "request query"
 		case strings.HasPrefix(o.Name, fnBodyRead+"#"):
 			return "request body"
+		case strings.HasPrefix(o.Name, "(net/url.Values).Get#"), strings.HasPrefix(o.Name, "(net/http.Header).Get#"), strings.HasPrefix(o.Name, "(net/http.Header).Values#"):
+			// a value picked from a parameter/header collection: client data when the collection is the request's
+			if call, ok := o.V.(ssa.CallInstruction); ok && len(call.Common().Args) > 0 {
+				for _, ro := range c.fieldOrigins(call.Common().Args[0]) {
+					if ro.V == o.V {
+						continue
+					}
+					if s := c.clientSource(ro, taintedKeys); s != "" {
+						return s
+					}
+				}
+			}
 		case strings.HasPrefix(o.Name, fnGetSession+"#"):
 			if k, ok := constArgStr(o.V.(ssa.CallInstruction), 1); ok && taintedKeys[k] {
 				return "session[" + k + "] (client-supplied when stored)"
@@ -743,6 +755,37 @@ func (c *Ctx) redirectorMode(fn *ssa.Function) []string {
 		default:
 			r.Ok("C15.guard", name, cl, pos, "every witness of this class is replaced by the default")
 		}
+	}
+	// the string sent is the string the guard examined: nothing decodes, trims or
+	// rewrites the client's value between the guard and the sink
+	for _, sk := range sinks {
+		bad := ""
+		seen := map[ssa.Value]bool{}
+		var walk func(v ssa.Value, d int)
+		walk = func(v ssa.Value, d int) {
+			if d > 8 || v == nil || seen[v] || bad != "" {
+				return
+			}
+			seen[v] = true
+			if v == ssa.Value(src) {
+				return
+			}
+			if phi, ok := v.(*ssa.Phi); ok {
+				for _, e := range phi.Edges {
+					walk(e, d+1)
+				}
+				return
+			}
+			// any other value: fine unless computed from the client's value
+			if HasOrigin(c.rawOrigins(v), func(o Origin) bool { return o.V == ssa.Value(src) }) {
+				bad = SafeString(v)
+				if call, _ := CallOf(v); call != nil {
+					bad = Callee(call)
+				}
+			}
+		}
+		walk(sk.val, 0)
+		r.Check(bad == "", "C15.guard-verbatim", name, sk.wh, posf(c, sk.in), "the value sent is the value the guard examined (or the default)", "the client's return target is transformed ("+bad+") between the guard and "+sk.wh+": the guard examined a different string than the one sent, so an encoded off-site target passes it and is decoded afterwards")
 	}
 	// FollowRedirParam gate: the tainted value reaches a sink only under ro.FollowRedirParam
 	for _, sk := range sinks {
